@@ -433,12 +433,12 @@ def builtin_bases(ctx):
     for bname, (base, big) in bases.items():
         for how in ("decorated", "dbc", "inherited"):
             if how == "decorated":
-                K = icontract.invariant(inv, "short")(type("K", (base,), {"size": lambda self: len(self)}))
+                K = icontract.invariant(inv, "short")(type("K", (base,), {"size": lambda self: 7}))
             elif how == "dbc":
-                K = icontract.invariant(inv, "short")(type(icontract.DBC)("K", (icontract.DBC, base), {"size": lambda self: len(self)}))
+                K = icontract.invariant(inv, "short")(type(icontract.DBC)("K", (icontract.DBC, base), {"size": lambda self: 7}))
             else:
                 P = icontract.invariant(inv, "short")(type(icontract.DBC)("P", (icontract.DBC, base), {}))
-                K = type(icontract.DBC)("K", (P,), {"size": lambda self: len(self)})
+                K = type(icontract.DBC)("K", (P,), {"size": lambda self: 7})
             label = "%s sub-class (%s)" % (bname, how)
             for what, fn, want in (("violating construction", lambda: K(big), "violation"), ("valid construction", lambda: K(), "ok"),
                                    ("public method", lambda: K().size(), "ok")):
@@ -458,10 +458,106 @@ def builtin_bases(ctx):
                                  label, what, want, min_evals, got, len(seen)))
 
 
+def renamed_members(ctx, only=None):
+    """Members whose function is not called what the attribute is called: aliases (``debit = withdraw``, ``__call__ = m``),
+    lambdas, functions behind a decorator that does not preserve ``__name__`` - as public methods and as ``__init__``. The
+    invariants hold after construction and around every public operation whatever the function object's name is."""
+    import icontract
+
+    seen, bodies = [], []
+
+    def inv(self):
+        seen.append("inv")
+        return self.__dict__.get("v", 1) > 0
+
+    def nowraps(fn):
+        def inner(self, *a, **kw):
+            return fn(self, *a, **kw)
+
+        return inner
+
+    def withdraw(self):
+        bodies.append("withdraw")
+        return 7
+
+    def setup(self, v=1):
+        bodies.append("init")
+        self.v = v
+
+    def __init__(self, v=1):
+        bodies.append("init")
+        self.v = v
+
+    plain_init = __init__
+
+    variants = {
+        "alias": ({"withdraw": withdraw, "debit": withdraw, "__init__": plain_init}, "debit"),
+        "alias-original": ({"withdraw": withdraw, "debit": withdraw, "__init__": plain_init}, "withdraw"),
+        "dunder-alias": ({"withdraw": withdraw, "__call__": withdraw, "__init__": plain_init}, "__call__"),
+        "lambda": ({"size": lambda self: bodies.append("withdraw") or 7, "__init__": plain_init}, "size"),
+        "no-wraps-decorator": ({"withdraw": nowraps(withdraw), "__init__": plain_init}, "withdraw"),
+        "init-behind-no-wraps-decorator": ({"withdraw": withdraw, "__init__": nowraps(plain_init)}, "withdraw"),
+        "init-alias": ({"withdraw": withdraw, "_setup": setup, "__init__": setup}, "withdraw"),
+        "init-lambda": ({"withdraw": withdraw, "__init__": lambda self, v=1: bodies.append("init") or self.__dict__.update(v=v)},
+                        "withdraw"),
+    }
+    meta = type(icontract.DBC)
+    for vname, (ns, member) in variants.items():
+        for how in ("decorated", "dbc", "inherited"):
+            if only and only != [vname, how]:
+                continue
+            if how == "decorated":
+                K = icontract.invariant(inv, "positive")(type("K", (), dict(ns)))
+            elif how == "dbc":
+                K = icontract.invariant(inv, "positive")(meta("K", (icontract.DBC,), dict(ns)))
+            else:
+                P = icontract.invariant(inv, "positive")(meta("P", (icontract.DBC,), {}))
+                K = meta("K", (P,), dict(ns))
+            label = "%s (%s)" % (vname, how)
+
+            def construct_invalid():
+                K(-1)
+
+            def call_valid():
+                k = K()
+                del seen[:], bodies[:]
+                getattr(k, member)() if member != "__call__" else k()
+
+            def call_corrupted():
+                k = K()
+                k.__dict__["v"] = -1
+                del seen[:], bodies[:]
+                getattr(k, member)() if member != "__call__" else k()
+
+            for what, fn, want, want_evals, want_bodies in (
+                    ("violating construction", construct_invalid, "violation", 1, ["init"]),
+                    ("public operation on a valid object", call_valid, "ok", 2, ["withdraw"]),
+                    ("public operation on a corrupted object", call_corrupted, "violation", 1, [])):
+                del seen[:], bodies[:]
+                try:
+                    fn()
+                    got = "ok"
+                except icontract.ViolationError:
+                    got = "violation"
+                except BaseException as e:  # noqa
+                    got = "%s: %s" % (type(e).__name__, e)
+                ctx.case(["renamed-member", vname, how, what], True, sample={"directed": label, "operation": what, "outcome": got})
+                ctx.count("directed:renamed-members")
+                if got != want or len(seen) != want_evals or bodies != want_bodies:
+                    ctx.fail("renamed-member|%s|%s|%s" % (vname, how, what.split()[0]), {"renamed_member": [vname, how]},
+                             "%s, %s: expected %s with %d invariant evaluation(s) and bodies %r, got %s with %d and %r" % (
+                                 label, what, want, want_evals, want_bodies, got, len(seen), bodies))
+            stray = sorted(n for n in ("inner", "<lambda>", "setup", "plain_init") if n in vars(K))
+            if stray:
+                ctx.fail("renamed-member|%s|%s|stray-attribute" % (vname, how), {"renamed_member": [vname, how]},
+                         "%s: the class got attributes it never defined: %r" % (label, stray))
+
+
 def directed(ctx, only=None):
     D.run_one(ctx, dict(D19_CASE), judge, nontrivial=lambda *a: True)
     if only is None:
         builtin_bases(ctx)
+        renamed_members(ctx)
     if only is None:
         n = 0
         for case in constructor_matrix():
@@ -476,6 +572,11 @@ def directed(ctx, only=None):
 
 
 def replay(ctx, case):
+    if case.get("renamed_member"):
+        before = ctx.evaluations
+        renamed_members(ctx, only=case["renamed_member"])
+        ctx.evaluations = before + 1
+        return
     if case.get("builtin_base"):
         before = ctx.evaluations
         builtin_bases(ctx)
